@@ -188,6 +188,7 @@ structure FnB where
 structure ProgB where
   mode : String
   types : Array TyDesc := #[]
+  tkeys : Array String := #[]
   globals : Array Global := #[]
   fns : List (Nat × Fn) := []
   impls : Array (Nat × Nat × Bool) := #[]
@@ -221,7 +222,8 @@ def ProgB.finish (b : ProgB) : Option Prog := do
   let fns := b.fns.reverse
   let ok := (fns.zipIdx.all fun (x, i) => x.1 == i)
   if !ok then none
-  pure { mode := b.mode, types := b.types, globals := b.globals, fns := (fns.map (·.2)).toArray,
+  if b.tkeys.size ≠ b.types.size then none
+  pure { mode := b.mode, types := b.types, tkeys := b.tkeys, globals := b.globals, fns := (fns.map (·.2)).toArray,
          impls := b.impls, methods := b.methods }
 
 /-- One dump record. `none` = malformed. -/
@@ -232,6 +234,10 @@ def ProgB.feed (b : ProgB) (toks : List String) : Option ProgB :=
     if id ≠ b.types.size then none
     let t ← parseTy rest
     pure { b with types := b.types.push t }
+  | ["tkey", id, k] => do
+    let id ← id.toNat?
+    if id ≠ b.tkeys.size then none
+    pure { b with tkeys := b.tkeys.push (← hexDecode k) }
   | ["global", id, name, t] => do
     let id ← id.toNat?
     if id ≠ b.globals.size then none
